@@ -105,7 +105,13 @@ def run_history(files, backend, names, fault_at=None, fault=None, srcfault=None,
             out_dirs_before = {d: sb.path(d).is_dir() for d in ("/out1", "/out2", "/results")}
             rc, log, nonce, text = sb.invoke(argv, fault=fault if k == fault_at else None, srcfault=srcfault if k == fault_at else None, how=how)
             cmds = [l for l in log if len(l) >= 5 and l[0].isdigit()]
-            obs.append({
+            # a step that failed once and was RETRIED successfully (same tool, same arguments, later, no fault) did not fail
+            fl = [l for l in log if l[0] == "FAULT"]
+            recovered = False
+            if len(fl) == 1 and not fl[0][2].endswith((":late", ":stuck")):
+                hit = [c for c in cmds if c[0] == fl[0][1]]
+                recovered = bool(hit) and any(c[1] == hit[0][1] and c[4] == hit[0][4] and int(c[0]) > int(hit[0][0]) for c in cmds)
+            obs.append({"recovered": recovered,
                 "name": nm, "rc": rc, "nonce": nonce, "ncmd": len(cmds), "tools": [l[1] for l in cmds], "occ": [f"{l[1]}:{l[3]}" for l in cmds],
                 "fault_hit": any(l[0] == "FAULT" for l in log), "src": [l[0].split(" ", 1)[1] for l in log if l[0].startswith("SRC ")],
                 "dest": {p: sb.read(p) for p in ("/results/ANALYSIS.root", "/out1/ANALYSIS.root", "/out1/result.root", "/out2/ANALYSIS.root", "/out2/x.root")},
@@ -146,6 +152,8 @@ def check_invocation(o, built_before, faulted, backend):
     fresh_any = any(t["nonce"] == o["nonce"] for t in parse_trees(content)) or (content is not None and f"NONCE {o['nonce']}\n" in content)
     want_inputs = [inp] if inp is not None else MOUNTED
     if faulted:
+        if o.get("recovered") and o["rc"] == 0 and fresh and tree["inputs"] == want_inputs:
+            return probs      # the failed attempt was retried and this run's output was delivered: no step failed in the end
         if o["fault_hit"] or faulted == "src":
             if o["rc"] == 0:
                 probs.append("exit status 0 although a step failed")
@@ -212,6 +220,8 @@ def explore(args):
         plans = [("cmd", o) for o in sorted(set(base[k]["occ"]), key=base[k]["occ"].index)] + [("src", s) for s in base[k]["src"]]
         # the analysis job and the conversion can also die AFTER having written their output (an exception at event k)
         plans += [("cmd", o + ":late") for o in sorted(set(base[k]["occ"]), key=base[k]["occ"].index) if o.split(":")[0] in JOB_TOOLS | {"root"}]
+        # a delivery tool that fails at its k-th use and at every later use (a destination that stays unavailable)
+        plans += [("cmd", o + ":stuck") for o in sorted(set(base[k]["occ"]), key=base[k]["occ"].index) if o.split(":")[0] in ("cp", "xrdcp", "mv")]
         for kind, what in plans:
             obs = run_history(files, backend, hist, fault_at=k, fault=what if kind == "cmd" else None, srcfault=what if kind == "src" else None, macro_dir=macro_dir, how=how)
             stats["runs"] += 1
